@@ -226,4 +226,58 @@ theorem bytes_toString_eq (b : List Nat) (n : Nat)
     (h : (aReprLayout .single b).len = some n) : bytesReprToString b = some (bytesRepr b) := by
   simp [bytesReprToString, h]
 
+/-! ### `AsciiEscape::named_repr_layout` / `AsciiEscape::new` -/
+
+/-- `AsciiEscape::named_repr_layout(b, name)` (the layout for `name(b'...')`, e.g. `bytearray(b'..')`):
+    whenever it announces a length it is the very layout of `repr_layout` — same quote, same
+    body length — and the whole text `name` + `(` + bytes repr + `)` fits `isize`; conversely it
+    announces that length whenever the whole text fits.  So `len = None` exactly when the text to
+    be produced is longer than `isize::MAX`. -/
+theorem named_layout_spec (nameLen : Nat) (b : List Nat) :
+    (∀ n, (aNamedReprLayout nameLen b).len = some n →
+      aNamedReprLayout nameLen b = aReprLayout .single b ∧ nameLen + 2 + (n + 3) ≤ isizeMax) ∧
+    (∀ n, (aReprLayout .single b).len = some n → nameLen + 2 + (n + 3) ≤ isizeMax →
+      aNamedReprLayout nameLen b = aReprLayout .single b) := by
+  constructor
+  · intro n h
+    have e : nameLen + 2 + 3 = 3 + (nameLen + 2) := by omega
+    unfold aNamedReprLayout at h ⊢
+    rw [e] at h ⊢
+    have h1 := layoutGo_shift_down aEscapedCharLen .single 3 (nameLen + 2) b 3 0 0 n (by omega) h
+    have h2 := layoutGo_bound aEscapedCharLen .single (3 + (nameLen + 2)) b _ 0 0 n (by omega) h
+    exact ⟨by unfold aReprLayout; exact h1.symm, by omega⟩
+  · intro n h hfit
+    have e : nameLen + 2 + 3 = 3 + (nameLen + 2) := by omega
+    unfold aNamedReprLayout
+    rw [e]
+    unfold aReprLayout at h ⊢
+    exact layoutGo_shift_up aEscapedCharLen .single 3 (nameLen + 2) b 3 0 0 n (by omega) h (by omega)
+
+/-- the bytes repr written with the named layout (`AsciiEscape::new(b, named_repr_layout(b, name))`)
+    is always a bytes literal that decodes to `b` — also in the overflow exit — and when a length
+    is announced it is the text of `new_repr` with exactly that many body characters. -/
+theorem named_repr_decodes (nameLen : Nat) (b : List Nat) (hb : ValidBytes b) :
+    pyLiteralDecode (bytesReprNamed nameLen b) = some (.bytes b) ∧
+    (∀ n, (aNamedReprLayout nameLen b).len = some n →
+      bytesReprNamed nameLen b = bytesRepr b ∧ (bytesReprNamed nameLen b).length = n + 3) := by
+  have hs := named_layout_spec nameLen b
+  constructor
+  · apply aWrite_decodes b _ _ hb
+    intro n h
+    obtain ⟨h1, _⟩ := hs.1 n h
+    rw [h1] at h ⊢
+    exact (aReprLayout_spec .single b n h).2
+  · intro n h
+    obtain ⟨h1, _⟩ := hs.1 n h
+    have hn : (aReprLayout .single b).len = some n := by rw [← h1]; exact h
+    have hl := bytes_layout_len_exact b n hn
+    refine ⟨by simp [bytesReprNamed, bytesReprNew, bytesRepr, bytesReprPref, h1], ?_⟩
+    have : bytesReprNamed nameLen b = bytesRepr b := by simp [bytesReprNamed, bytesReprNew, bytesRepr, bytesReprPref, h1]
+    rw [this, ← utf8LenList_ascii _ hl.2, ← utf8Encode_length]
+    exact hl.1
+
+example : aNamedReprLayout 9 [39, 0, 97] = ⟨.double, some 6⟩ := by decide
+example : (aNamedReprLayout (isizeMax - 5 - 5) [39, 0, 97]).len = none := by decide
+example : (aNamedReprLayout (isizeMax - 5 - 6) [39, 0, 97]).len = some 6 := by decide
+
 end PV.C16
